@@ -82,7 +82,8 @@ theorem supp_cons (m : Mode) (inGroup : Bool) (fuel : Nat) (pos : Pos) (prev c :
       if c = cBS then
         match rest with
         | [] => true
-        | d :: rest' => supp m inGroup fuel (posAfter d) d rest'
+        | d :: rest' =>
+          !(dotSens && pos == .unknown && d == cDot) && supp m inGroup fuel (posAfter d) d rest'
       else if m.ext && isExtOp c && rest.head? == some cLP then
         if c = cBang then false
         else
@@ -119,7 +120,7 @@ theorem supp_cons (m : Mode) (inGroup : Bool) (fuel : Nat) (pos : Pos) (prev c :
          | .notBracket => supp m inGroup fuel .mid cLB rest
          | .malformed _ => true)
       else if inGroup && c == cLP then false
-      else supp m inGroup fuel (posAfter c) c rest) := by
+      else !(dotSens && pos == .unknown && c == cDot) && supp m inGroup fuel (posAfter c) c rest) := by
   conv => lhs; rw [supp.eq_def]
   all_goals rfl
 
@@ -1268,6 +1269,7 @@ theorem top_agree (m : Mode) (hne : m.ext = false) (hnf : m.filenames = false) (
       have hT' : rest.length < fT := by simp at hT; omega
       rw [supp_cons] at hs
       rw [parseSeq_cons]
+      simp only [litTok_nofn hnf]
       have hgrp : (m.ext && isExtOp c && rest.head? == some cLP) = false := by simp [hne]
       have hgrp2 : (!(m.ext && rest.head? == some cLP)) = true := by simp [hne]
       by_cases hbs : c = cBS
@@ -1289,7 +1291,8 @@ theorem top_agree (m : Mode) (hne : m.ext = false) (hnf : m.filenames = false) (
             have e2 : cBS ≠ cQuest := by decide
             simp [hne, e1, e2]
           rw [topLoop_tok hn]
-          refine TopAgree.cons rfl ?_ (ih _ d rest' fP fT (by simp at hP'; omega) (by simp at hT'; omega) hs)
+          refine TopAgree.cons rfl ?_ (ih _ d rest' fP fT (by simp at hP'; omega) (by simp at hT'; omega)
+            (by simpa [hnf] using hs))
           intro b s
           rw [matches_chr_iff]; simp [GDen]
       · simp only [hbs, if_false, hgrp, Bool.false_eq_true, hgrp2, and_true] at hs ⊢
@@ -1386,7 +1389,7 @@ theorem top_agree (m : Mode) (hne : m.ext = false) (hnf : m.filenames = false) (
                 rw [hfuel, next_cons]
                 simp [hne, hbs, hq, hst, hlb]
               rw [topLoop_tok hn]
-              refine TopAgree.cons rfl ?_ (ih _ c rest fP fT hP' hT' hs)
+              refine TopAgree.cons rfl ?_ (ih _ c rest fP fT hP' hT' (by simpa [hnf] using hs))
               intro b s
               rw [matches_chr_iff]; simp [GDen]
 
